@@ -242,6 +242,13 @@ func init() {
 	}
 	e["(*math/big.Int).SetString"] = func(fr *frame, args []value) value {
 		s, ok := args[1].(string)
+		if ok && isMarked(s) {
+			// the decimal rendering of one symbolic integer parses back to that integer
+			if toks := tokenizeMarked(s); len(toks) == 1 && strings.HasPrefix(toks[0].atom, "big:") && (args[2].(int) == 10 || args[2].(int) == 0) {
+				fr.bigSet(args[0], bigSym(strings.TrimPrefix(toks[0].atom, "big:")))
+				return tuple{args[0], true}
+			}
+		}
 		if !ok || isMarked(s) {
 			panic(engineAbort{"big.Int.SetString on symbolic string"})
 		}
@@ -604,6 +611,28 @@ func init() {
 	e["(encoding/binary.bigEndian).Uint16"] = getN(2, true, types.Uint16)
 	e["(encoding/binary.littleEndian).Uint64"] = getN(8, false, types.Uint64)
 	e["(encoding/binary.littleEndian).Uint32"] = getN(4, false, types.Uint32)
+	// strconv.ParseUint of the marked decimal rendering of one symbolic integer gives that integer back (range
+	// error decided by the solver); concrete strings go through the real parser
+	e["strconv.ParseUint"] = func(fr *frame, args []value) value {
+		s := argString(args[0])
+		base, bits := args[1].(int), args[2].(int)
+		if isMarked(s) {
+			toks := tokenizeMarked(s)
+			if len(toks) == 1 && strings.HasPrefix(toks[0].atom, "big:") && (base == 10 || base == 0) && (bits == 64 || bits == 0) {
+				t := strings.TrimPrefix(toks[0].atom, "big:")
+				if fr.i.decideBool(fr, "(and (>= "+t+" 0) (< "+t+" 18446744073709551616))") {
+					return tuple{sym{t, types.Uint64}, iface{}}
+				}
+				return tuple{uint64(0), fr.i.newErrorString("strconv.ParseUint: value out of range")}
+			}
+			panic(engineAbort{"strconv.ParseUint of a symbolic string"})
+		}
+		r, err := strconv.ParseUint(s, base, bits)
+		if err != nil {
+			return tuple{r, fr.i.newErrorString(err.Error())}
+		}
+		return tuple{r, iface{}}
+	}
 	e["strconv.FormatUint"] = fmtInt
 	e["strconv.FormatInt"] = fmtInt
 	e["strconv.Itoa"] = fmtInt
